@@ -99,6 +99,11 @@ CHECKS["C07"] = dict(
    text="379 throw sites (throw of 21 values, 64 runtime-error sites, node-validated text sites incl. eval/Function, every callback-taking built-in, accessors, 144 conversion sites, 21 call forms) x 10 handler placements (same function, callers, across one or two native frames, returned function, uncaught) x nested C/F/CF shapes with every exit kind x 33 expression contexts with pending operands are run in the engine and in refjs: ordered log (each finally once per entry, each catch with the value it received), completion or uncaught outcome. Caught runtime errors must be instanceof their constructor and Error with name/message/constructor; uncaught throws must reach Python as JSError describing the value; the reported line/column must be the throw statement's (within the failing statement for runtime errors) and shift by exactly k under k leading lines/spaces. Every built-in is also called on 47 adversarial arguments: errors must be script-catchable, raising pairs become throw sites.",
    note="Trusts oracles/refjs.py + refjs_c07.py (0 disagreements with node on 25 201 generated programs at development time). Error message wording is compared only for non-emptiness / containment.",
    ref="4/C07")
+CHECKS["C08"] = dict(
+   technique="seeded operation histories over an object graph model-checked against an abstract object model after every step; exhaustive call-form x function-kind grid against the reference interpreter",
+   text="(a) Histories of 26 (40) steps over 15 operations (object literals with data/accessor/computed/numeric/__proto__ entries, Object.create with descriptors, new through constructor chains, set/get/delete with identifier, string, numeric and computed keys incl. inherited names and non-canonical numeric strings, defineProperty, setPrototypeOf, F.prototype assignment, Object.assign, inherited accessors) on one Context holding o0..o7 and F0..F3; after every step every live object is observed (read, in, hasOwnProperty, keys/values/entries, for-in, getPrototypeOf, instanceof, isPrototypeOf, JSON.stringify) and compared with the model. (b) 457 call programs: function kinds x call forms x this arguments, observing this, arguments, length, name, return value, instanceof and constructor of the result.",
+   note="Trusts oracles/objmodel.py and refjs.py (0 disagreements with node on 60 000 steps / 17.3 M observations and 457 call programs at development time). Integer-key order, functions as objects, null-prototype fallback methods and built-in function length/name are recorded known findings (cells/guards).",
+   ref="4/C08")
 NA = {}
 m = {
  "version": 1,
